@@ -195,7 +195,7 @@ var c09Pools = [][]string{
 	/* joiners  */ {"\u200c", "\u200d", "क्\u200d", "\u094d\u200c"},
 	/* rtl      */ {"א", "ב", "ג", "١", "٢", "ا", "ب"},
 	/* numbers  */ {"1", "0x1", "255", "256", "0", "08", "1.2.3.4", "0x", "4294967296"},
-	/* misc     */ {"≠", "≮", "\u0338", "\ufffd", "\u0301", "\u2260", "\U000e0041", "\ufdd0", "\U0010ffff", "\u2028", "\u3000", "\u00a0"},
+	/* misc     */ {"\u0080", "\u0081", "\u009f", "\u00a0", "≠", "≮", "\u0338", "\ufffd", "\u0301", "\u2260", "\U000e0041", "\ufdd0", "\U0010ffff", "\u2028", "\u3000", "\u00a0"},
 }
 var c09ACE = []string{"xn--nxasmq6b", "XN--NXASMQ6B", "xn--ls8h", "xn--mnchen-3ya", "xn--4ca", "xn--a", "xn--", "xn--0", "xn--fa-hia", "xn--zca", "Xn--Mnchen-3yA", "xn--1ch", "xn--ab-miv", "xn--a-", "xn--ASCII-", "xn--u-ccb"}
 var c09Dots = []string{".", ".", ".", ".", "\u3002", "\uff0e", "\uff61"}
